@@ -310,14 +310,23 @@ def disconnect_rules(ctx, R4, repo, res):
     ok = False
     if st_tests:
         for tt in st_tests:
-            fs_t = facts(tt.ast, True)
-            breaks = any(tv and a == "self._connection_state <= ConnectionState.DISCONNECTED_BROKEN_CONN" for a, tv in fs_t)
-            leads_to_break = any(isinstance(rg.nodes[d].ast, ast.Break) for d, lab in rg.succs(tt.id, exc=False) if lab == "true")
+            # whatever the spelling (`if down: break`, `while not down:`): the decode is reached from this test only on the edge where the
+            # connection is known to be up, and from a dispatch / a read only through this test
+            down_labels = set()
+            for lab_ in ("true", "false"):
+                fs_t = facts(tt.ast, lab_ == "true")
+                if any((tv and re.fullmatch(r"self\._connection_state <= .*DISCONNECTED_BROKEN_CONN", a)) or
+                       (not tv and re.fullmatch(r"self\._connection_state > .*DISCONNECTED_BROKEN_CONN", a)) for a, tv in fs_t):
+                    down_labels.add(lab_)
+            if len(down_labels) != 1:
+                continue
+            down_stops = all(not rg.reaches(d, rv.decode_nodes[0], avoid={tt.id}, exc=False) and d != rv.decode_nodes[0]
+                             for d, lab in rg.succs(tt.id, exc=False) if lab in down_labels)
             procs = [nd.id for nd in rg.nodes if nd.kind == "stmt" and "_process_message" in unparse(nd.ast)]
             reads = [nd.id for nd in rg.nodes if nd.kind == "stmt" and ".read(" in unparse(nd.ast)]
             srcs = procs + reads
             covered = all(not rg.reaches(p, rv.decode_nodes[0], avoid={tt.id}, exc=False) for p in srcs)
-            ok = ok or (breaks and leads_to_break and covered)
+            ok = ok or (down_stops and covered)
     ctx.instance(R4, "socket_read_task[state re-checked before every decode]", ok,
                  "after _process_message (which may have disconnected) the read loop can decode and dispatch the next buffered frame without testing "
                  "`state <= DISCONNECTED_BROKEN_CONN`: message callbacks after the disconnect", loc(rv.fn))
